@@ -234,6 +234,23 @@ struct gauss_seidel {
 
                     level[i] = l;
                     nlev = std::max(nlev, l+1);
+
+                    // Rows that are swept later but whose unknowns are read
+                    // by this row (anti-dependencies of a structurally
+                    // non-symmetric matrix) have to go to later levels, so
+                    // that this row sees their old values as it does in
+                    // the serial sweep.
+                    for(auto a = row_begin(A, i); a; ++a) {
+                        ptrdiff_t c = a.col();
+
+                        if (forward) {
+                            if (c <= i) continue;
+                        } else {
+                            if (c >= i) continue;
+                        }
+
+                        level[c] = std::max(level[c], l+1);
+                    }
                 }
 
 
